@@ -500,8 +500,10 @@ Inductive payload :=
 | PNone
 | PBytes (l : list N)
 | PWrap (key ctr : list N) (start end_ : Z) (kek : list N)          (* KeyBlob(start,end,key,ctr).export(kek) *)
-| PEnc (key ctr : list N) (start end_ : Z) (swap : bool) (addr : Z) (data : list N).
-                                                                    (* KeyBlob(...).encrypt_image(addr, data, swap) *)
+| PEnc (key ctr : list N) (start end_ : Z) (swap : bool) (ctr_base : Z) (addr : Z) (data : list N).
+        (* OTFAD AES-CTR of `data` placed at `addr`; the block at offset i uses the counter word ctr_base + i.
+           KeyBlob(...).encrypt_image(base_address=addr, data, swap) without counter_value: ctr_base = start of the key blob;
+           the hardware (and Otfad.encrypt_image) use the system address: ctr_base = addr *)
 Record cmd := { c_tag : Z; c_flags : Z; c_addr : Z; c_count : Z; c_data : Z; c_payload : payload; c_memid : Z }.
 
 Definition u32 (z : Z) : bool := (0 <=? z) && (z <=? 4294967295).
@@ -779,7 +781,8 @@ Definition h_encrypt (fs : files) (kbs : keyblobs) (d : dict) : res cmd :=
   bind (resolve_keyblob kbs id) (fun k =>
   if negb (Z.land (kb_end k) 2 =? 0) && negb (Z.land (kb_end k) 1 =? 0) then
     if negb (addr mod 16 =? 0) then Err 1%N
-    else cmd_load addr (PEnc (kb_key k) (kb_ctr k) (kb_start k) (kb_end k) (kb_swap k) addr (align_zeros data 512)) 0
+    else cmd_load addr (PEnc (kb_key k) (kb_ctr k) (kb_start k) (kb_end k) (kb_swap k)
+                             (if encrypt_counter_from_address then addr else kb_start k) addr (align_zeros data 512)) 0
   else cmd_load addr (PBytes data) 0)))).
 
 (* dispatch: SB21Helper.cmds[key] (KeyError when the key is missing), then the handler of that name *)
@@ -925,7 +928,7 @@ Definition stmt_spec (c : pctx) (fs : files) (kbs : keyblobs) (s : stmt) : optio
               if negb (Z.land (kb_end k) 2 =? 0) && negb (Z.land (kb_end k) 1 =? 0) then
                 obind (guard (fst al mod 16 =? 0)) (fun _ =>
                 Some (mk 2 0 (fst al) 0 0
-                         (PEnc (kb_key k) (kb_ctr k) (kb_start k) (kb_end k) (kb_swap k) (fst al) (align_zeros bytes 512)) 0))
+                         (PEnc (kb_key k) (kb_ctr k) (kb_start k) (kb_end k) (kb_swap k) (fst al) (fst al) (align_zeros bytes 512)) 0))
               else Some (mk 2 0 (fst al) 0 0 (PBytes bytes) 0))
           | None => None
           end)
@@ -959,6 +962,22 @@ Definition sclean (s : stmt) : bool :=
   | SKeywrap id _ a => no_size id && no_size a
   | SEncrypt id o (LFile _) t | SEncrypt id o (LSource _) t => no_size id && no_size_memopt o && no_size_target t
   | SEncrypt _ _ _ _ => false
+  end.
+
+(* encrypt statements outside finding C19-F8: when the key blob enables encryption, the data is loaded at the start of
+   the key blob (then the counter SPSDK uses, the key blob start, is the system address) *)
+Definition enc_at_start (c : pctx) (kbs : keyblobs) (s : stmt) : bool :=
+  match s with
+  | SEncrypt id _ _ t =>
+      match sev c id, spec_target c t with
+      | Some vid, Some (a, _) =>
+          match resolve_keyblob kbs vid with
+          | Ok k => if negb (Z.land (kb_end k) 2 =? 0) && negb (Z.land (kb_end k) 1 =? 0) then a =? kb_start k else true
+          | Err _ => true
+          end
+      | _, _ => true
+      end
+  | _ => true
   end.
 
 (* ------------------------------------------------------------------------------------------------ *)
@@ -1177,7 +1196,7 @@ Definition v_payload (p : payload) : value :=
   | PNone => VList []
   | PBytes l => VList [VInt 1; VBytes l]
   | PWrap k c s e kek => VList [VInt 2; VBytes k; VBytes c; VInt s; VInt e; VBytes kek]
-  | PEnc k c s e sw a d => VList [VInt 3; VBytes k; VBytes c; VInt s; VInt e; vbool sw; VInt a; VBytes d]
+  | PEnc k c s e sw cb a d => VList [VInt 3; VBytes k; VBytes c; VInt s; VInt e; vbool sw; VInt a; VBytes d; VInt cb]
   end.
 Definition v_cmd (c : cmd) : value :=
   VList [VInt (c_tag c); VInt (c_flags c); VInt (c_addr c); VInt (c_count c); VInt (c_data c); v_payload (c_payload c); VInt (c_memid c)].
